@@ -370,30 +370,24 @@ theorem rename_touches_only_declared (tbl : ResolveTable) (n : Node) (src dst : 
   · cases h
   · split at h
     · injection h with h; injection h with h1 h2
-      exact ⟨h1.symm, fun k _ _ => by rw [← h2]⟩
-    · split at h
-      · injection h with h; injection h with h1 h2
-        refine ⟨h1.symm, fun k hs hd => ?_⟩
-        rw [← h2, Ctx.get_erase_ne _ _ _ hs, Ctx.get_set_ne _ _ _ _ hd]
-      · cases h
+      refine ⟨h1.symm, fun k hs hd => ?_⟩
+      rw [← h2, Ctx.get_erase_ne _ _ _ hs, Ctx.get_set_ne _ _ _ _ hd]
+    · cases h
 
-/-- **C01 (context processors: delete).** `delete:k` leaves the data alone and touches no other key;
-    when it acts, `k` is gone afterwards. -/
+/-- **C01 (context processors: delete).** `delete:k` leaves the data alone, touches no other key, and
+    `k` is gone afterwards. -/
 theorem delete_touches_only_declared (tbl : ResolveTable) (n : Node) (key : String) (d d' : Data) (c c' : Ctx)
     (hk : n.kind = .delete key) (h : step tbl n (d, c) = .ok (d', c')) :
-    d' = d ∧ (∀ k, k ≠ key → c'.get k = c.get k) ∧ (c' = c ∨ c'.get key = none) := by
+    d' = d ∧ (∀ k, k ≠ key → c'.get k = c.get k) ∧ c'.get key = none := by
   simp only [step, hk] at h
   split at h
   · cases h
   · split at h
     · injection h with h; injection h with h1 h2
-      exact ⟨h1.symm, fun k _ => by rw [← h2], Or.inl h2.symm⟩
-    · split at h
-      · injection h with h; injection h with h1 h2
-        refine ⟨h1.symm, fun k hs => ?_, Or.inr ?_⟩
-        · rw [← h2, Ctx.get_erase_ne _ _ _ hs]
-        · rw [← h2, Ctx.get_erase_self]
-      · cases h
+      refine ⟨h1.symm, fun k hs => ?_, ?_⟩
+      · rw [← h2, Ctx.get_erase_ne _ _ _ hs]
+      · rw [← h2, Ctx.get_erase_self]
+    · cases h
 
 /-- **C01 (context processors: template).** `template:"…":out` writes exactly `out`. -/
 theorem template_touches_only_declared (tbl : ResolveTable) (n : Node) (parts : List TPart) (out : String)
